@@ -381,7 +381,13 @@ def c05_same_line(ctx):
     same_line_zone(ctx)
 
 
-RULES = [c05_predefined, c05_1, c05_2, c05_3, c05_4, c05_5, zone_provenance, c05_state, c05_same_line]
+def c05_sizes(ctx):
+    """The zone's end is enforced against what a line *reserves*: a line that emits more than it reserves puts bytes behind the check (C02.5)."""
+    from rules.c02 import c02_5
+    c02_5(ctx)
+
+
+RULES = [c05_predefined, c05_1, c05_2, c05_3, c05_4, c05_5, zone_provenance, c05_state, c05_same_line, c05_sizes]
 
 # ---------------------------------------------------------------------- self-test variants
 from engine.selftest import V  # noqa: E402
